@@ -51,6 +51,7 @@ type LiveOp struct {
 }
 
 type LiveCase struct {
+	Cert   bool         `json:"cert,omitempty"` // round 32768: certificate-step credentials (step 5) use the certificate look-backs
 	Params int          `json:"params"`
 	Vals   []uk.ValSpec `json:"vals"`
 	Seed   uint8        `json:"seed"`
@@ -58,8 +59,11 @@ type LiveCase struct {
 }
 
 func genLiveCase(t *rapid.T) LiveCase {
-	c := LiveCase{Params: rapid.IntRange(0, 2).Draw(t, "params"), Seed: rapid.Uint8().Draw(t, "seed")}
+	c := LiveCase{Params: rapid.IntRange(0, 2).Draw(t, "params"), Seed: rapid.Uint8().Draw(t, "seed"), Cert: rapid.IntRange(0, 2).Draw(t, "cert") == 0}
 	T := liveTriples[c.Params][1]
+	if c.Cert {
+		T = liveTriples[c.Params][2]
+	}
 	n := rapid.IntRange(3, 6).Draw(t, "nvals")
 	var chamber uint64
 	for i := 0; i < n; i++ {
@@ -81,13 +85,21 @@ func genLiveCase(t *rapid.T) LiveCase {
 	}
 	var creds []credSel
 	for i := 0; i < ncred; i++ {
-		creds = append(creds, credSel{rapid.Bool().Draw(t, "prio"), rapid.IntRange(0, n-1).Draw(t, "val"),
-			uint32(rapid.IntRange(1, 3).Draw(t, "ri")), uint32(rapid.IntRange(2, 4).Draw(t, "step"))})
+		maxStep := 4
+		if c.Cert {
+			maxStep = 5
+		}
+		cs := credSel{rapid.Bool().Draw(t, "prio"), rapid.IntRange(0, n-1).Draw(t, "val"),
+			uint32(rapid.IntRange(1, 3).Draw(t, "ri")), uint32(rapid.IntRange(2, maxStep).Draw(t, "step"))}
+		if c.Cert && rapid.Bool().Draw(t, "certstep") {
+			cs.prio, cs.step = false, 5
+		}
+		creds = append(creds, cs)
 	}
 	nops := rapid.IntRange(2, 10).Draw(t, "nops")
 	for i := 0; i < nops; i++ {
 		cs := creds[rapid.IntRange(0, ncred-1).Draw(t, "cred")]
-		variant := rapid.SampledFrom([]int{0, 0, 0, 1, 2, 3, 4}).Draw(t, "variant")
+		variant := rapid.SampledFrom([]int{0, 0, 0, 1, 2, 3, 4, 5}).Draw(t, "variant")
 		c.Ops = append(c.Ops, LiveOp{Priority: cs.prio, Val: cs.val, RI: cs.ri, Step: cs.step, Variant: variant})
 	}
 	return c
@@ -118,7 +130,10 @@ func runLiveCase(c LiveCase) kit.Result {
 		return kit.Discarded("set: " + err.Error())
 	}
 	yp := params.Versions[params.YouVersion(liveVersionBase+c.Params)]
-	const round = 40
+	round := uint64(40)
+	if c.Cert {
+		round = 32768
+	}
 	chain := uk.NewFakeChain(set, &yp, round-1, c.Seed)
 	chain.HeaderVersion = yp.Version
 	own := uk.PoolKey(c.Vals[0].Key)
@@ -128,7 +143,7 @@ func runLiveCase(c LiveCase) kit.Result {
 	}
 	defer rig.Mux.Stop()
 	rig.SetContext(round, 1, 0)
-	seed := chain.SeedOf(round - yp.SeedLookBack)
+	voteSeed, certSeed := chain.SeedOf(round-yp.SeedLookBack), chain.SeedOf(0)
 	trip := liveTriples[c.Params]
 	var hist []string
 	asked := map[string]bool{}
@@ -141,6 +156,12 @@ func runLiveCase(c LiveCase) kit.Result {
 		if op.Priority {
 			step, T = 1, trip[0]
 		}
+		// certificate-step credentials are drawn from the certificate look-back (seed of header round-32768,
+		// certificate committee), everything else from the ordinary vote look-back
+		seed, otherSeed, lb := voteSeed, certSeed, params.LookBackPos
+		if step == 5 {
+			seed, otherSeed, lb, T = certSeed, voteSeed, params.LookBackCert, trip[2]
+		}
 		ri := op.RI
 		credRI, credStep, credKey := ri, step, sp.Key
 		switch op.Variant {
@@ -151,7 +172,11 @@ func runLiveCase(c LiveCase) kit.Result {
 		case 4:
 			credKey = c.Vals[(op.Val+1)%len(c.Vals)].Key // ... to another validator
 		}
-		cr := uk.Sortition(credKey, seed, credRI, credStep, T, sp.Stake, set.TotalChamber)
+		credSeed := seed
+		if op.Variant == 5 {
+			credSeed = otherSeed // ... from the seed of the other look-back (ordinary vs certificate)
+		}
+		cr := uk.Sortition(credKey, credSeed, credRI, credStep, T, sp.Stake, set.TotalChamber)
 		// what the honest credential of (val, ri, step) is worth
 		honest := uk.Sortition(sp.Key, seed, ri, step, T, sp.Stake, set.TotalChamber)
 		votes := cr.J
@@ -179,7 +204,7 @@ func runLiveCase(c LiveCase) kit.Result {
 			}
 			prio := best
 			want = op.Variant == 0 && honest.J >= 1
-			data := &ucon.ConsensusCommon{Round: big.NewInt(round), RoundIndex: ri, Step: 1, Priority: prio, SortitionProof: cr.Proof, SubUsers: votes}
+			data := &ucon.ConsensusCommon{Round: new(big.Int).SetUint64(round), RoundIndex: ri, Step: 1, Priority: prio, SortitionProof: cr.Proof, SubUsers: votes}
 			what = fmt.Sprintf("verifyPriority(v%d, index %d, seats %d (won %d), variant %d)", op.Val, ri, votes, honest.J, op.Variant)
 			verr = rig.VerifVerifyPriority(&key.Ecdsa.PublicKey, data)
 			hist = append(hist, fmt.Sprintf("[%d] %s -> %v (statement: accept=%v)", i, what, verr, want))
@@ -209,9 +234,9 @@ func runLiveCase(c LiveCase) kit.Result {
 			}
 		} else {
 			want = op.Variant == 0 && honest.J >= 1
-			data := &ucon.SortitionData{Round: big.NewInt(round), RoundIndex: ri, Step: step, Proof: cr.Proof, Votes: votes}
+			data := &ucon.SortitionData{Round: new(big.Int).SetUint64(round), RoundIndex: ri, Step: step, Proof: cr.Proof, Votes: votes}
 			what = fmt.Sprintf("verifySortition(v%d, index %d, step %d, seats %d (won %d), variant %d)", op.Val, ri, step, votes, honest.J, op.Variant)
-			verr = rig.VerifVerifySortition(&key.Ecdsa.PublicKey, data, params.LookBackPos)
+			verr = rig.VerifVerifySortition(&key.Ecdsa.PublicKey, data, lb)
 			hist = append(hist, fmt.Sprintf("[%d] %s -> %v (statement: accept=%v)", i, what, verr, want))
 			if (verr == nil) != want {
 				return liveFail(c, hist, verr, want)
@@ -227,6 +252,9 @@ func runLiveCase(c LiveCase) kit.Result {
 		}
 	}
 	labels := []string{fmt.Sprintf("params:%d", c.Params)}
+	if c.Cert {
+		labels = append(labels, "cert-round")
+	}
 	if repeats > 0 {
 		labels = append(labels, "credential-asked-again")
 	}
@@ -256,5 +284,149 @@ var _ = kit.Register(kit.Prop[LiveCase]{
 	Name: "LiveVerifier",
 	Rule: "3-6 online senators on a real validator trie behind a synthetic header table, a Server wired as in StartMining (rig shim), round 40 index 1; 2-10 questions to Server.verifySortition / Server.verifyPriority about 1-3 credentials (validator, index 1-3, step), each asked repeatedly in generated order as: genuine, one seat more than won, issued for another step, for another round index, to another validator; after every accepted proposer credential the same proof and seat count are asked again with the all-ones priority and with a seat hash that is not the largest. Oracle: per question, accept iff genuine and at least one seat was won - independent of the questions before. Non-trivial: an altered form was asked after the genuine one had been accepted",
 	Gen:  genLiveCase, Run: runLiveCase,
+	Quick: 150, Thorough: 4000, Chunk: 50, MinNonTrivialPct: 20,
+})
+
+// ---------------------------------------------------------------------------------
+// LiveIssuer: the node's own credential issuer (SortitionManager.isProposer / isValidator, used by
+// Prepare and by the voter) must hand out, for every (round, round index, step) it is asked about, the
+// credential of exactly that round's seed - whatever it was asked before and whether or not its step
+// views were cleared in between (Prepare asks about round head+1 before the engine has switched rounds).
+
+type IssueOp struct {
+	NextRound bool   `json:"next"` // ask about round+1 instead of round
+	Proposer  bool   `json:"proposer"`
+	RI        uint32 `json:"ri"`
+	Step      uint32 `json:"step"`
+	Clear     bool   `json:"clear"` // the engine switches to that round first (ClearStepView)
+}
+
+type IssueCase struct {
+	Params int          `json:"params"`
+	Vals   []uk.ValSpec `json:"vals"`
+	Seed   uint8        `json:"seed"`
+	Ops    []IssueOp    `json:"ops"`
+}
+
+func genIssueCase(t *rapid.T) IssueCase {
+	c := IssueCase{Params: rapid.IntRange(0, 2).Draw(t, "params"), Seed: rapid.Uint8().Draw(t, "seed")}
+	T := liveTriples[c.Params][1]
+	n := rapid.IntRange(3, 5).Draw(t, "nvals")
+	var chamber uint64
+	for i := 0; i < n; i++ {
+		v := uk.ValSpec{Key: i, Online: true, Role: uint8(params.RoleSenator)}
+		v.Stake = 1 + uint64(rapid.IntRange(0, int(T)).Draw(t, "stake"))
+		chamber += v.Stake
+		c.Vals = append(c.Vals, v)
+	}
+	if chamber < T {
+		c.Vals[0].Stake += T - chamber
+	}
+	// the node's own stake decides how often it wins a seat at all: make it substantial
+	c.Vals[0].Stake += T / 2
+	nops := rapid.IntRange(2, 8).Draw(t, "nops")
+	for i := 0; i < nops; i++ {
+		c.Ops = append(c.Ops, IssueOp{NextRound: rapid.Bool().Draw(t, "next"), Proposer: rapid.IntRange(0, 2).Draw(t, "proposer") == 0,
+			RI: uint32(rapid.IntRange(1, 2).Draw(t, "ri")), Step: uint32(rapid.IntRange(2, 4).Draw(t, "step")), Clear: rapid.IntRange(0, 5).Draw(t, "clear") == 0})
+	}
+	return c
+}
+
+func runIssueCase(c IssueCase) kit.Result {
+	set, err := uk.BuildSet(c.Vals)
+	if err != nil {
+		return kit.Discarded("set: " + err.Error())
+	}
+	yp := params.Versions[params.YouVersion(liveVersionBase+c.Params)]
+	const round = uint64(40)
+	chain := uk.NewFakeChain(set, &yp, round, c.Seed) // head = block 40: both round 40 and round 41 can be asked about
+	chain.HeaderVersion = yp.Version
+	own := uk.PoolKey(c.Vals[0].Key)
+	rig, err := ucon.VerifNewRig(youdb.NewMemDatabase(), chain, own.Ecdsa, own.BlsSk, &yp, round)
+	if err != nil {
+		return kit.Discarded("rig: " + err.Error())
+	}
+	defer rig.Mux.Stop()
+	rig.SetContext(round, 1, 0)
+	trip := liveTriples[c.Params]
+	var hist []string
+	askedRounds := map[string]map[uint64]bool{}
+	crossRound, won := 0, 0
+	for i, op := range c.Ops {
+		r := round
+		if op.NextRound {
+			r++
+		}
+		if op.Clear {
+			rig.VerifClearStepViews(r)
+			hist = append(hist, fmt.Sprintf("[%d] engine switches to round %d (step views cleared)", i, r))
+		}
+		step, T := op.Step, trip[1]
+		if op.Proposer {
+			step, T = 1, trip[0]
+		}
+		seed := chain.SeedOf(r - yp.SeedLookBack)
+		want := uk.Sortition(own.N, seed, op.RI, step, T, c.Vals[0].Stake, set.TotalChamber)
+		var ok bool
+		var sv *ucon.StepView
+		if op.Proposer {
+			ok, sv = rig.VerifIsProposer(r, op.RI)
+		} else {
+			ok, sv = rig.VerifIsValidator(r, op.RI, step, params.LookBackPos)
+		}
+		id := fmt.Sprintf("%d/%d", op.RI, step)
+		if askedRounds[id] == nil {
+			askedRounds[id] = map[uint64]bool{}
+		}
+		if len(askedRounds[id]) > 0 && !askedRounds[id][r] {
+			crossRound++
+		}
+		askedRounds[id][r] = true
+		got := uint32(0)
+		if sv != nil {
+			got = sv.SubUsers
+		}
+		hist = append(hist, fmt.Sprintf("[%d] credential for (round %d, index %d, step %d): selected=%v seats=%d (that round's seed gives %d)", i, r, op.RI, step, ok, got, want.J))
+		fail := func(f string, a ...interface{}) kit.Result {
+			return kit.Fail("issued-credential-of-another-context", "%s\nvalidators: %+v, thresholds %v, node = v0\nquestions:\n%s", fmt.Sprintf(f, a...), c.Vals, trip, strings.Join(hist, "\n"))
+		}
+		if ok != (want.J >= 1) {
+			return fail("the node says selected=%v for (round %d, index %d, step %d); the sortition of that round's seed gives %d seats", ok, r, op.RI, step, want.J)
+		}
+		if !ok {
+			continue
+		}
+		won++
+		if sv == nil || sv.SubUsers != want.J {
+			return fail("the node claims %d seats for (round %d, index %d, step %d); the sortition of that round's seed gives %d", got, r, op.RI, step, want.J)
+		}
+		// the issued proof must verify for exactly that context through the running verifier
+		if op.Proposer {
+			data := &ucon.ConsensusCommon{Round: new(big.Int).SetUint64(r), RoundIndex: op.RI, Step: 1, Priority: sv.Priority, SortitionProof: sv.SortitionProof, SubUsers: sv.SubUsers}
+			if e := rig.VerifVerifyPriority(&own.Ecdsa.PublicKey, data); e != nil {
+				return fail("the proposer credential the node issued for (round %d, index %d) does not verify for that round: %v", r, op.RI, e)
+			}
+		} else {
+			data := &ucon.SortitionData{Round: new(big.Int).SetUint64(r), RoundIndex: op.RI, Step: step, Proof: sv.SortitionProof, Votes: sv.SubUsers}
+			if e := rig.VerifVerifySortition(&own.Ecdsa.PublicKey, data, params.LookBackPos); e != nil {
+				return fail("the vote credential the node issued for (round %d, index %d, step %d) does not verify for that round: %v", r, op.RI, step, e)
+			}
+		}
+	}
+	labels := []string{fmt.Sprintf("params:%d", c.Params)}
+	if crossRound > 0 {
+		labels = append(labels, "same-index-and-step-asked-for-two-rounds")
+	}
+	if won > 0 {
+		labels = append(labels, "some-selected")
+	}
+	sort.Strings(labels)
+	return kit.OK(crossRound > 0 && won > 0, labels...)
+}
+
+var _ = kit.Register(kit.Prop[IssueCase]{
+	Name: "LiveIssuer",
+	Rule: "3-5 online senators, the node holds a substantial stake; a Server wired as in StartMining at round 40 (head = block 40); 2-8 questions to SortitionManager.isProposer / isValidator about (round 40 or 41, index 1-2, step), in generated order, with or without the engine's round switch (ClearStepView) in between - Prepare asks about round head+1 before the engine has switched. Oracle: selected iff the sortition of THAT round's seed gives a seat, the claimed seat count is that sortition's, and the issued proof verifies for that round through the running verifier. Non-trivial: the same (index, step) was asked for both rounds and a seat was won",
+	Gen:  genIssueCase, Run: runIssueCase,
 	Quick: 150, Thorough: 4000, Chunk: 50, MinNonTrivialPct: 20,
 })
